@@ -1,4 +1,4 @@
-\* as-is: failed renewal leaves the old counter behind
+\* demo (repaired in 61b5747): failed renewal leaves the old counter behind
 CONSTANTS
   Senders = {"p1", "p2"}
   MaxChunks = 2
@@ -6,6 +6,8 @@ CONSTANTS
   MaxSeq = 13
   RenewMayFail = TRUE
   Gen = FALSE
+  MayAbort = TRUE
+  Dev_ResetSeqOnAbort = FALSE
   Dev_GateGap = FALSE
   Dev_FailedRenewSeq = TRUE
 INIT Init
